@@ -284,3 +284,63 @@ def qv4(ctx: Ctx):
                        sample="isinstance(value, (list, tuple)) and type(value) is not str")
     if not n:
         raise AnalysisError("QV4: no value expansion found in the mapping serialiser (anchor vanished)")
+
+
+_FIRST_ONLY = ("pop", "popone", "popitem")
+_QV5_EXAMPLES = (
+    ("def f(self, names):\n    d = MultiDict(self._parsed_query)\n    for n in names:\n        d.pop(n, None)\n    return d\n", True),
+    ("def f(self, names):\n    d = MultiDict(self._parsed_query)\n    for n in names:\n        if n in d:\n            del d[n]\n    return d\n", False),
+    ("def f(self, names):\n    return [(k, v) for k, v in self.query.items() if k not in names]\n", False),
+)
+
+
+def _multi_root(r, t, depth=0):
+    """Is t a multi-valued mapping of query pairs (a MultiDict / MultiDictProxy built here, or the URL's parsed query)?"""
+    while t[0] == "mut":
+        t = t[1]
+    if t[0] == "call" and t[1][0] in ("ext", "global") and t[1][-1] in ("MultiDict", "MultiDictProxy", "CIMultiDict"):
+        return True
+    if t[0] == "attr" and t[2] in ("query", "_parsed_query"):
+        return True
+    if t[0] == "phi" and depth < 3:
+        return any(_multi_root(r, x, depth + 1) for x in r.phis.get((t[1], t[2]), ()) if x != t)
+    return False
+
+
+def _first_only_removals(r):
+    return [e for e in r.by_kind("call") if e.func[0] == "attr" and e.func[2] in _FIRST_ONLY and _multi_root(r, e.func[1])]
+
+
+def qv5(ctx: Ctx):
+    """Removing a key from a multi-valued query must remove every pair with that key: MultiDict.pop / popone / popitem take
+    out the first occurrence only (the dict habit `d.pop(k, None)` leaves `a=3` in `a=1&b=2&a=3`). Expected count is zero, so
+    the rule proves on built-in examples that it still fires."""
+    from ..model import FuncInfo
+    model = ctx.model
+    rule = "QV5"
+    ctx.rule(rule, floor=0, what="no first-occurrence removal (pop / popone / popitem) on a multi-valued query mapping")
+    import ast as _ast
+    for i, (src, want) in enumerate(_QV5_EXAMPLES):
+        node = _ast.parse(src).body[0]
+        rr = analyze(model, FuncInfo("_url", "URL", f"<qv5-example-{i}>", node))
+        if bool(_first_only_removals(rr)) != want:
+            raise AnalysisError(f"QV5 self-check: example {i} judged {not want}, expected {want}")
+    n = 0
+    for fi in model.all_funcs():
+        if fi.module not in ("_url", "_query"):
+            continue
+        r = analyze(model, fi)
+        seen = set()
+        for e in _first_only_removals(r):
+            if id(e.node) in seen:
+                continue
+            seen.add(id(e.node))
+            n += 1
+            ctx.instance(rule)
+            ctx.ob(rule, fi.qual, show(e.value)[:80], False,
+                   f"`{e.func[2]}` removes only the first pair of a repeated key from a multi-valued query: the other pairs "
+                   "with that key survive (without_query_params('a') on a=1&b=2&a=3 leaves a=3)", where(fi, e.node))
+    if not n:
+        ctx.instance(rule)
+        ctx.ob(rule, "<package>", "first-occurrence removals on query mappings", True, sample="none present (3 built-in examples judged correctly)",
+               nontrivial=False)
